@@ -285,11 +285,11 @@ PROPS["C14"] = {
              "Oracle over the call logs: each closure package fetched exactly once and no other, each registry version list and each selected "
              "version's source address requested exactly once, the multiset of analysed (source, finder) pairs equals the reference closure, "
              "every trace start is followed by exactly one matching success/failure with the real call in between, 'already' only after an "
-             "earlier success; termination is decided by a call budget (10x the reference bound), not a clock. Non-trivial = cycle/diamond, "
+             "earlier success; termination is decided by a call budget (10x the reference bound), not a clock. With one injected fetch/registry/finder fault the trace must stay bracketed and an 'already' event must still refer to completed work. Non-trivial = cycle/diamond, "
              "duplicate Add or multi-artifact closure; distinct by case hash."),
     "assumptions": ["only fault-free worlds for which the reference predicts no error are judged (C12 takes the rest)"],
-    "quick": [plain("exh2", "^TestExhaustiveGraphs$", shards=1, env={"VERIF_C14_LOCS": 2}), rapid("once", "^TestPropOnce$", 800, shards=4)],
-    "thorough": [plain("exh3", "^TestExhaustiveGraphs$", shards=10, env={"VERIF_C14_LOCS": 3}), rapid("once", "^TestPropOnce$", 12000, shards=6)],
+    "quick": [plain("exh2", "^TestExhaustiveGraphs$", shards=1, env={"VERIF_C14_LOCS": 2}), rapid("once", "^TestPropOnce$", 800, shards=4), rapid("faultedtrace", "^TestPropFaultedTrace$", 800, shards=2)],
+    "thorough": [plain("exh3", "^TestExhaustiveGraphs$", shards=10, env={"VERIF_C14_LOCS": 3}), rapid("once", "^TestPropOnce$", 12000, shards=6), rapid("faultedtrace", "^TestPropFaultedTrace$", 12000, shards=3)],
 }
 
 PROPS["C17"] = {
